@@ -272,6 +272,8 @@ pub fn scenario(ctx: &mut Ctx) -> ScResult {
         let tcp = ctx.ch.rare(1, 3);
         let mut sim = AgentSim::new(ctx, tcp);
         sim.now = 0; // the event queue owns the clock here
+        sim.huge = false; // bursts of hundreds of requests belong to the `agent` scenario
+        sim.max_live = sim.max_live.min(40);
         if let Some((l, p, o)) = &shared {
             sim.local_creds = l.clone();
             sim.peer_creds = p.clone();
@@ -396,7 +398,7 @@ pub fn scenario(ctx: &mut Ctx) -> ScResult {
                 let mut guard_n = 0;
                 loop {
                     guard_n += 1;
-                    if guard_n > 64 {
+                    if guard_n > 64 + 3 * c.sim.model.txs.len() {
                         return Err(Violation::new("C05", "completes_within_bound", "poll_drain", "64 consecutive polls at one instant all returned events".into()));
                     }
                     match c.sim.poll_at(ctx, t, 0)? {
